@@ -11,7 +11,7 @@ package memefish
 // Vocabulary
 //
 // TokOK: the current token lies inside the buffer and ends where the lexer stands.
-// @ spec TokOK(l) = 0 <= l.Token.Pos && l.Token.Pos <= l.Token.End && l.Token.End == l.pos && (l.Token.Kind == "<eof>" ==> l.Token.Pos == len(l.Buffer)) && (l.Token.Kind == ">>" ==> l.Token.End == l.Token.Pos + 2) && (l.Token.Kind != ">" ==> len(l.Token.Raw) == l.Token.End - l.Token.Pos && (isSub(l.Token.Raw, l.Buffer, l.Token.Pos, l.Token.End) || (l.Token.Kind == "<bad>" && l.Token.Pos == l.Token.End) || l.Token.Kind == "")) && (!literalKind(l.Token.Kind) ==> l.Token.End - l.Token.Pos == len(l.Token.Kind)) && (l.Token.Kind == "<param>" ==> len(l.Token.AsString) == l.Token.End - l.Token.Pos - 1) && (l.Token.Kind == "<ident>" ==> len(l.Token.AsString) > 0) && 0 <= trivStart(l) && trivStart(l) <= l.Token.Pos
+// @ spec TokOK(l) = 0 <= l.Token.Pos && l.Token.Pos <= l.Token.End && l.Token.End == l.pos && (l.Token.Kind == "<eof>" ==> l.Token.Pos == len(l.Buffer)) && (l.Token.Kind == ">>" ==> l.Token.End == l.Token.Pos + 2) && (l.Token.Kind != ">" ==> len(l.Token.Raw) == l.Token.End - l.Token.Pos && (isSub(l.Token.Raw, l.Buffer, l.Token.Pos, l.Token.End) || (l.Token.Kind == "<bad>" && l.Token.Pos == l.Token.End) || l.Token.Kind == "")) && (!literalKind(l.Token.Kind) ==> l.Token.End - l.Token.Pos == len(l.Token.Kind)) && (l.Token.Kind == "<param>" ==> len(l.Token.AsString) == l.Token.End - l.Token.Pos - 1) && (l.Token.Kind == "<ident>" ==> len(l.Token.AsString) > 0 && len(l.Token.AsString) <= l.Token.End - l.Token.Pos) && 0 <= trivStart(l) && trivStart(l) <= l.Token.Pos
 // a token that is neither <eof> nor <bad> nor the zero token is not empty (this is what makes the parser advance)
 // @ spec nonEmptyTok(l) = l.Token.Kind == "<eof>" || l.Token.Kind == "" || l.Token.Pos < l.Token.End || (l.Token.Kind == "<bad>" && l.Token.Pos == len(l.Buffer))
 // the spelling recorded in the current token has the length of its range (the '>' left over from a '>>'
@@ -416,6 +416,7 @@ package memefish
 // @   panics never
 // @   modifies p.Lexer, p.errors, cur(p.Lexer).pos, cur(p.Lexer).Token.*, cur(p.Lexer).lastTokenKind, cur(p.Lexer).dotIdent, p.Lexer.File.lines
 // @   loop 0 invariant ParserInv(p) && (p.Lexer == old(p.Lexer) || fresh(p.Lexer)) && p.Lexer.File == old(p.Lexer.File) && len(p.errors) >= old(len(p.errors)) && wf(nodes)
+// @   loop 0 invariant[C05] pfl: pf(nodes) && within(nodes, old(p.Lexer.Token.Pos), p.Lexer.Token.Pos) && p.Lexer.Token.Pos >= old(p.Lexer.Token.Pos)
 // @   loop 0 invariant[C10] faithfull: faithfulW(p.Lexer) && (strong(doParse) ==> faithful(p.Lexer))
 // @   loop 0 decreases 2 * (len(p.Lexer.Buffer) - p.Lexer.Token.Pos) + ite(p.Lexer.Token.Kind == ";", 0, 1)
 
@@ -691,10 +692,12 @@ package memefish
 // @ func memefish.(*Parser).parseNewConstructor
 // @   inherit parser
 // @   requires notNil(namedType)
+// @   requires[C05] argorder: 0 <= newPos && newPos < $pos(namedType)
 // @   ensures[C06] exact: len(p.errors) == old(len(p.errors)) && old(newPos <= $pos(namedType)) ==> spans(result, lowerBound(), trivStart(p.Lexer))
 // @ func memefish.(*Parser).parseBracedNewConstructor
 // @   inherit parser
 // @   requires notNil(namedType)
+// @   requires[C05] argorder: 0 <= newPos && newPos < $pos(namedType)
 // @   ensures[C06] exact: len(p.errors) == old(len(p.errors)) && old(newPos <= $pos(namedType)) ==> spans(result, lowerBound(), trivStart(p.Lexer))
 // @ func memefish.(*Parser).tryParseCreateModelColumn
 // @   inherit parser
@@ -809,3 +812,24 @@ package memefish
 // @ func memefish.(*Parser).parseCaseExpr
 // @   inherit parser
 // @   loop 0 invariant[C05] order: len(whens) >= 1 && pos < $pos(whens[0]) && (isNil(expr) || (pos < $pos(expr) && $end(expr) <= $pos(whens[0])))
+
+// @ func memefish.(*Parser).parseSelectResults
+// @   inherit parsernp
+// @   ensures len(result) >= 1
+// @   loop 0 invariant len(results) >= 1
+
+// @ func memefish.(*Parser).parseTVFCallExpr
+// @   inherit parser
+// @   requires[C05] idsok: len(ids) >= 1
+
+// DML statements are finished by these productions: the caller has consumed the statement hint (if any)
+// and the keyword at `pos`; the hint lies before the keyword.
+// @ func memefish.(*Parser).parseInsert
+// @   inherit parser
+// @   ensures[C06] exact: len(p.errors) == old(len(p.errors)) && old(isNil(hint) || $pos(hint) < pos) ==> spans(result, lowerBound(), trivStart(p.Lexer))
+// @ func memefish.(*Parser).parseUpdate
+// @   inherit parser
+// @   ensures[C06] exact: len(p.errors) == old(len(p.errors)) && old(isNil(hint) || $pos(hint) < pos) ==> spans(result, lowerBound(), trivStart(p.Lexer))
+// @ func memefish.(*Parser).parseDelete
+// @   inherit parser
+// @   ensures[C06] exact: len(p.errors) == old(len(p.errors)) && old(isNil(hint) || $pos(hint) < pos) ==> spans(result, lowerBound(), trivStart(p.Lexer))
